@@ -1124,6 +1124,7 @@ func runSlotRelease(c *core.Ctx) {
 		// made by the handler or by a private helper the handler delegates the whole step to
 		var rel *ssa.Call
 		var relOcc an.Occ
+		folded, partial := false, ""
 		an.Region(fn, nil, func(o an.Occ) {
 			call, ok := o.In.(*ssa.Call)
 			if !ok {
@@ -1134,6 +1135,9 @@ func runSlotRelease(c *core.Ctx) {
 				return
 			}
 			dels := false
+			// the step folded into one method that answers with the aggregate itself (`Take(id) (*ServerOKMsg,
+			// error)`): the ways out that matter are those that hand out a reply
+			takes := sc.Signature.Results().Len() >= 2 && typeNameOf(sc.Signature.Results().At(0).Type()) == row.typ
 			// (the delete may be delegated to a private helper of the state: stat.drop(id))
 			an.Region(sc, nil, func(so an.Occ) {
 				if cc, ok := so.In.(*ssa.Call); ok {
@@ -1141,8 +1145,14 @@ func runSlotRelease(c *core.Ctx) {
 						// … on every way out of the method (a release that one return skips leaves the slot behind)
 						all := true
 						for _, rb := range an.ReturnBlocks(sc) {
+							if takes && an.IsNilConst(an.ReturnValues(an.LastInstr(rb).(*ssa.Return))[0]) {
+								continue
+							}
 							if sb := so.Site().Block(); !(sb == rb || sb.Dominates(rb)) {
 								all = false
+								if takes {
+									partial = fname(c, sc) + " hands out a reply at " + P.Pos(an.LastInstr(rb).Pos()) + " without having released the slot"
+								}
 							}
 						}
 						if all {
@@ -1153,10 +1163,40 @@ func runSlotRelease(c *core.Ctx) {
 			})
 			if dels {
 				rel, relOcc = call, o
+				folded = takes
 			}
 		})
 		good := rel != nil
 		detail := "no call releases the slot"
+		if partial != "" && rel == nil {
+			detail = partial
+		}
+		if rel != nil && folded {
+			// the reply is the step's own answer, handed on only when the step did not fail
+			host := rel.Parent()
+			tr := relOcc.Path
+			detail = "take(" + tr(rel.Call.Args[1]) + ")"
+			good = tr(rel.Call.Args[1]) == id
+			n := 0
+			for _, re := range replyEdges(host) {
+				n++
+				ex, isEx := an.Unwrap(re.val).(*ssa.Extract)
+				if !isEx || ex.Tuple != ssa.Value(rel) || ex.Index != 0 {
+					good = false
+					detail += "; the reply is not what the step answered"
+				}
+			}
+			if n != 1 {
+				good = false
+				detail += fmt.Sprintf("; %d replying returns", n)
+			}
+			if host != fn {
+				good = false
+				detail += "; the step is delegated"
+			}
+			c.Check(good, nil, fname(c, fn), "release("+row.idField+")", P.Pos(fn.Pos()), "the reply is what "+an.CalleeName(&rel.Call)+"("+row.idField+") answers, and every answer of it that is a reply has released the slot of that id", "aggregation/release shape broken: "+detail+" — a second reply for the same request, or a stale slot answering a later request")
+			continue
+		}
 		if rel != nil {
 			host := rel.Parent()
 			tr := relOcc.Path
@@ -1527,6 +1567,18 @@ func runOkAgg(c *core.Ctx) {
 		okAggReady(c, ready)
 		return
 	}
+	// Ready + Msg (+ the release) folded into one method that answers with the aggregate or a reason why
+	// not (`Take(id) (*ServerOKMsg, error)`): the aggregation is read in it, and "ready" is "no way to a
+	// reply without having found every child's entry filled"
+	foldedTake := false
+	if msgFn == nil && ready == nil && join != nil {
+		for _, f := range P.ModFuncs {
+			if recvTypeName(f) == "mergeHandlerSessionOKState" && f.Parent() == nil && f.Signature.Results().Len() == 2 &&
+				typeNameOf(f.Signature.Results().At(0).Type()) == "ServerOKMsg" && len(callsTo(f, join)) > 0 {
+				msgFn, ready, foldedTake = f, f, true
+			}
+		}
+	}
 	if msgFn == nil || ready == nil || join == nil {
 		c.NoAnchor(nil, "mergeHandlerSessionOKState.Msg / Ready, joinServerOKMsgs")
 		return
@@ -1790,7 +1842,11 @@ func runOkAgg(c *core.Ctx) {
 		okJoin = okJoin && wrote && strings.Contains(an.PathOf(ctor.Call.Args[3]), "strings.Builder).String(")
 	}
 	c.Check(okJoin, nil, fname(c, join), "join", P.Pos(join.Pos()), "joined reply: id and verdict of the first message, text = the messages' texts concatenated in order (machine-readable prefix of the first survives)", "the joined OK does not carry the first message's id/verdict with the texts concatenated in order")
-	okAggReady(c, ready)
+	if foldedTake {
+		okAggReadyFolded(c, ready)
+	} else {
+		okAggReady(c, ready)
+	}
 }
 
 // okAggVerdictFirst: Msg(id) = NewServerOKMsg(id, V, "", text) with L = recv.s[id], V = "every element
@@ -1909,6 +1965,60 @@ func okAggVerdictFirst(c *core.Ctx, msgFn *ssa.Function) (bool, string) {
 }
 
 // okAggReady: Ready ⇒ the slot exists and no child reply is missing
+// okAggReadyFolded: the folded form of the ready clause — every way of `take` to a reply (a non-nil
+// first result) has searched the slot for a missing (nil) entry and found none.
+func okAggReadyFolded(c *core.Ctx, take *ssa.Function) {
+	P := c.P
+	var search *ssa.Call
+	for _, ci := range calls(take) {
+		call, ok := ci.(*ssa.Call)
+		if !ok || len(call.Call.Args) != 2 || !an.IsNilConst(an.Unwrap(call.Call.Args[1])) {
+			continue
+		}
+		if n := an.CalleeName(&call.Call); strings.HasPrefix(n, "slices.Contains") || strings.HasPrefix(n, "slices.Index") {
+			search = call
+		}
+	}
+	good, why := search != nil, "no test for a missing reply"
+	if search != nil {
+		isIndex := strings.HasPrefix(an.CalleeName(&search.Call), "slices.Index")
+		for _, rb := range an.ReturnBlocks(take) {
+			if an.IsNilConst(an.ReturnValues(an.LastInstr(rb).(*ssa.Return))[0]) {
+				continue
+			}
+			alts, ok := an.ReachConds(take, rb)
+			if !ok {
+				good, why = false, "too many paths"
+				break
+			}
+			c.CountPaths(len(alts))
+			for _, cs := range alts {
+				none := false
+				for _, cd := range cs {
+					cd = an.NormCond(cd)
+					if !isIndex && cd.V == ssa.Value(search) && !cd.True {
+						none = true
+					}
+					if bo, isB := cd.V.(*ssa.BinOp); isIndex && isB && bo.X == ssa.Value(search) {
+						k, isK := an.ConstInt(bo.Y)
+						switch {
+						case !isK:
+						case bo.Op == token.GEQ && k == 0 && !cd.True, bo.Op == token.LSS && k == 0 && cd.True,
+							bo.Op == token.EQL && k == -1 && cd.True, bo.Op == token.NEQ && k == -1 && !cd.True,
+							bo.Op == token.GTR && k == -1 && !cd.True, bo.Op == token.LEQ && k == -1 && cd.True:
+							none = true
+						}
+					}
+				}
+				if !none {
+					good, why = false, "a way to a reply ("+P.Pos(an.LastInstr(rb).Pos())+") has not found every child's entry filled"
+				}
+			}
+		}
+	}
+	c.Check(good, nil, fname(c, take), "ready", P.Pos(take.Pos()), "a reply is handed out only after the slot was searched for a missing (nil) entry and none was found", "a reply can be handed out before every child answered ("+why+"): the aggregate is sent before all children answered")
+}
+
 func okAggReady(c *core.Ctx, ready *ssa.Function) {
 	P := c.P
 	t, _, n, ok := an.NoSubject().FuncBoolMeaning(ready, 0, nil, nil)
